@@ -78,6 +78,30 @@ func (c *Ctx) paramBinding(p *ssa.Parameter) (ssa.Value, bool) {
 			return args[idx], true
 		}
 	}
+	// a helper shared by several functions: when a rule is looking at one of them (the anchor it last
+	// enumerated) and that anchor has exactly one call of the helper, use that call
+	if c.anchorHint != nil && c.isNew(fn) && !c.inHint {
+		c.inHint = true
+		defer func() { c.inHint = false }()
+		sites, asValue := c.callersOf(fn)
+		if len(asValue) == 0 {
+			var pick ssa.CallInstruction
+			n := 0
+			for _, s := range sites {
+				root := rootFn(s.Fn)
+				if root == rootFn(c.anchorHint) || c.actsFor(root, rootFn(c.anchorHint)) {
+					pick = s.Call
+					n++
+				}
+			}
+			if n == 1 {
+				args := pick.Common().Args
+				if idx < len(args) {
+					return args[idx], true
+				}
+			}
+		}
+	}
 	return nil, false
 }
 
@@ -167,6 +191,7 @@ func (c *Ctx) ownerNames(fn *ssa.Function) []string {
 
 // blocks: the basic blocks of fn and of the new helpers extracted from it.
 func (c *Ctx) blocks(fn *ssa.Function) []*ssa.BasicBlock {
+	c.anchorHint = fn
 	out := append([]*ssa.BasicBlock{}, fn.Blocks...)
 	for _, h := range c.newCallees(fn) {
 		out = append(out, h.Blocks...)
